@@ -23,7 +23,7 @@ AS = (1 / 64, 0.25, 0.5, 2.0, 3.0, 10.0, 64.0, 100.0)
 
 def REQUIRED(tier):
     return [f"scale:{m}" for m in SCALES] + ["axis:None", "axis:0", "axis:1", "shape:one_lane", "shape:2d", "shape:1d", "class:constant", "class:zeros", "class:mixed_lanes", "class:ties",
-                                             "class:outliers", "equivariance_checks", "zscore_checks", "lane_checks", "a<0", "via_block", "via_timeseries", "layout:F", "layout:T_view", "dtype:float64_input", "input_unchanged_checks", "class:constant_nonround", "zscore_norm_location_checks", "dtype:unsigned_input", "long_strided_lane_checks", "class:smooth"]
+                                             "class:outliers", "equivariance_checks", "zscore_checks", "lane_checks", "a<0", "via_block", "via_timeseries", "layout:F", "layout:T_view", "dtype:float64_input", "input_unchanged_checks", "class:constant_nonround", "zscore_norm_location_checks", "dtype:unsigned_input", "long_strided_lane_checks", "class:smooth", "mid_lane_checks"]
 
 
 def cases(tier, seed):
@@ -32,6 +32,8 @@ def cases(tier, seed):
         yield {"n": 10, "seed": int(seed) * 100003 + i}
     for i in range(3 if tier == "quick" else 24):
         yield {"kind": "long_lanes", "seed": int(seed) * 100003 + i}
+    for i, n in enumerate((2600, 2049, 1025) if tier == "quick" else (2600, 2049, 1025, 3001, 4097, 513)):
+        yield {"kind": "mid_lanes", "n": n, "seed": int(seed) * 100003 + 500 + i}
 
 
 def _data(rng, shape, cls):
@@ -112,9 +114,42 @@ def _long_lanes(case, ctx):
     ctx.nontrivial_case(case)
 
 
+def _mid_lanes(case, ctx):
+    """Lanes of a few thousand samples (beyond any 'small input' path): every scale estimator is a function of the lane - the same lane gives
+    the same number twice, |a| times it after x -> a*x+b, and the per-axis result is the 1-D result of each lane."""
+    from sigpyproc.core import stats
+
+    rng = np.random.default_rng([case["seed"], 152])
+    n = int(case["n"])
+    x = np.round(rng.normal(size=(n, 2)) * 300).astype(np.float32)
+    y = (2.0 * x.astype(np.float64) + 64.0).astype(np.float32)       # exact in single precision
+    for method in SCALES:
+        if method == "doublemad":
+            continue      # reports one scale per sample (left/right of the median), judged in _one
+        ctx.evaluated(); ctx.count("mid_lane_checks"); ctx.count(f"scale:{method}")
+        one = dict(case, params={"n": n, "scale": method})
+        with np.errstate(all="ignore"):
+            s1 = float(np.asarray(stats.estimate_scale(np.ascontiguousarray(x[:, 0]), method)).ravel()[0])
+            s1b = float(np.asarray(stats.estimate_scale(np.ascontiguousarray(x[:, 0]), method)).ravel()[0])
+            s2 = float(np.asarray(stats.estimate_scale(np.ascontiguousarray(y[:, 0]), method)).ravel()[0])
+            sa = np.asarray(stats.estimate_scale(x, method, 0), dtype=np.float64).ravel()
+            sl = float(np.asarray(stats.estimate_scale(np.ascontiguousarray(x[:, 1]), method)).ravel()[0])
+        if not (np.isfinite(s1) and s1 > 0):
+            ctx.violation(f"scale-not-positive:mid-lanes:{method}", f"scale of {n} non-constant samples is {s1!r}", one); return
+        if s1b != s1:
+            ctx.violation(f"scale-not-a-function-of-the-lane:{method}", f"the same {n}-sample lane gave {s1!r} and then {s1b!r}", one); return
+        if abs(s2 - 2.0 * s1) > 1e-5 * s1:
+            ctx.violation(f"scale-not-equivariant:mid-lanes:{method}", f"n={n}: scale(2x+64) = {s2!r}, 2*scale(x) = {2 * s1!r}", one); return
+        if sa.size != 2 or abs(sa[0] - s1) > 1e-5 * s1 or abs(sa[1] - sl) > 1e-5 * sl:
+            ctx.violation(f"lane-inconsistent:scale:mid-lanes:{method}", f"n={n}: axis-0 scales {sa.tolist()} vs lane results {[s1, sl]}", one); return
+    ctx.nontrivial_case(case)
+
+
 def run_case(case, ctx):
     if case.get("kind") == "long_lanes":
         return _long_lanes(case, ctx)
+    if case.get("kind") == "mid_lanes":
+        return _mid_lanes(case, ctx)
     for j in ([case["only"]] if "only" in case else range(case["n"])):
         _one(case, j, ctx)
 
